@@ -21,6 +21,9 @@ TPL_PIECES = [
 FIXED = ["g('${a}', ${a})  # ${a}", 'f"${a}" + "${a}"', "${a} ${?b}", 'x = "${a}"\n${a}', "'''${a}''' ${a}"]
 
 
+APPLIED = [0]          # how often the tokenizer expectation had something to say
+
+
 def gen_template_text(rng):
     return "".join(rng.choice(TPL_PIECES) for _ in range(rng.randint(1, 9)))
 
@@ -28,6 +31,10 @@ def gen_template_text(rng):
 def tokenizer_expectation(text, occ):
     if re.search(r"(?i)f['\"]|f[rb]['\"]|[rb]f['\"]", text):
         return None                                 # f-strings: left to the model comparison
+    if any(not re.fullmatch(r"\??\w*", m.group(1)) for m in re.finditer(r"\$\{([^\s$}]*)\}", text)):
+        # a candidate whose "name" holds quotes, brackets or a backslash (${a)"""\}) is a legitimate match of rope's
+        # regular expression but cuts Python's tokens apart: the tokenizer says nothing about such a text
+        return None
     try:
         toks = list(tokenize.generate_tokens(io.StringIO(text).readline))
     except (tokenize.TokenError, SyntaxError, IndentationError):
@@ -45,6 +52,7 @@ def tokenizer_expectation(text, occ):
             return None
     want = [(m.group(1), m.start(), m.end()) for m in re.finditer(r"\$\{([^\s$}]*)\}", text)
             if not any(a <= m.start() < b for a, b in hidden)]
+    APPLIED[0] += 1
     if want != occ:
         return "placeholders %r, the tokenizer says %r" % (occ, want)
     return None
@@ -76,7 +84,9 @@ def run(ctx):
     cases = [{"kind": "template", "text": t} for t in FIXED]
     for _ in range(ctx.scale(250, 2500)):
         cases.append({"kind": "template", "text": gen_template_text(rng)})
+    APPLIED[0] = 0
     results = [run_case(c) for c in cases]
+    ctx.count("template:tokenizer_oracle_applied", APPLIED[0])
     terms = []
     for c, r in zip(cases, results):
         terms.append("{| t_text := %s; t_occ := [%s]; t_map := [%s]; t_subst := %s |}" % (
